@@ -34,6 +34,8 @@ def items(tier):
     for P, N in ((1, 1), (2, 2), (2, 1), (1, 3)):
         for smoothing in (False, True):
             out.append({"kind": "dynamic", "P": P, "N": N, "smoothing": smoothing})
+    out.append({"kind": "two_samples", "method": "single_pass"})
+    out.append({"kind": "two_samples", "method": "replacement"})
     out.append({"kind": "misc"})
     return out
 
@@ -197,6 +199,21 @@ def run_dynamic(h, P, N, smoothing):
         h.check("explicit methods are returned unchanged", S._sampling_method(_config(h, sampling_method="replacement")) == "replacement")
     finally:
         mod.SINGLE_PASS_SAMPLE_THRESHOLD = old
+
+
+def run_two_samples(h, method):
+    """two samples drawn from one source and kept: drawing the second must not disturb the first"""
+    S, pos, neg, kp, kn = _source(h, "neg", "pos", 2, 1, kmax=2)
+    h.policy(mult_cap=2)
+    cfg = _config(h, sampling_method=method, stratified_sampling="by_label")
+    B1 = S.bootstrap_sample(cfg)
+    snap = (h.snapshot(B1.pos), h.snapshot(B1.neg), B1.nb_easy_pos, B1.nb_easy_neg)
+    B2 = S.bootstrap_sample(cfg)
+    h.check("an earlier sample is unchanged after drawing another one from the same source",
+            h.unchanged(snap[0], B1.pos) and h.unchanged(snap[1], B1.neg) and h.eq(B1.nb_easy_pos, snap[2], 0) is not False and h.eq(B1.nb_easy_neg, snap[3], 0) is not False)
+    _wellformed(h, S, B1, pos, neg, "neg", "pos", tag="[first sample, after the second was drawn] ")
+    _wellformed(h, S, B2, pos, neg, "neg", "pos", tag="[second sample] ")
+    h.check("source untouched", h.And([h.eq(a, b, 0) for a, b in zip(h.cells(S.pos) + h.cells(S.neg), pos + neg)]))
 
 
 def run_misc(h):
